@@ -6,5 +6,9 @@ CONSTANTS
   Vias <- ViasAll
   MaxInject = 1
   Spoof = FALSE
+  Confs <- ConfsAll
+  Stores <- StoresAll
+  Ancs <- AncsAll
   RestoreAtTop = TRUE
-INVARIANTS ReplyIffValid ExactlyOne ToSender ReplyHeader NeverAnswersReply BoundedTraffic HistoryIndependence
+CONSTRAINTS EnvDeep
+INVARIANTS ReplyIffValid ExactlyOne ToSender ReplyHeader NeverAnswersReply BoundedTraffic HistoryIndependence StoreSane
